@@ -270,6 +270,12 @@ func expectBlockArgProcess(
 		return argTs, err
 	}
 
+	// end of input ends the call like a newline does
+	if nextT == nil {
+		m.parser.Unget()
+		return argTs, nil
+	}
+
 	if nextT.IsNewLineIdentifier() && !m.isParentheses {
 		m.parser.Unget()
 		return argTs, nil
